@@ -120,7 +120,9 @@ Record NodeOK (p : path) (n : node) : Prop := mkNodeOK {
   ok_nodup : NoDup (map fst (n_ch n));
   ok_ld : n_loaded n = true ->
           n_wh n = false /\ first_dir (n_reals n) = true /\
-          forall k, afind k (n_ch n) = None <-> kids p (lstack p) k = []
+          forall k, afind k (n_ch n) = None <-> kids p (lstack p) k = [];
+  (* every backing inode after the first is a directory (new_from_real_inodes stops at anything else) *)
+  ok_tl : Forall (fun r => r_dir r = true) (tl (n_reals n))
 }.
 (* a coherent subtree of the cache rooted at path p *)
 Definition CohT (p : path) (n : node) : Prop := forall q m, nget q n = Some m -> NodeOK (p ++ q) m.
@@ -309,6 +311,12 @@ Proof.
   - destruct Hs as (Hw & Hd & _). rewrite Hd. destruct (r_wh q); cbn [negb map dcut]; split; try constructor; reflexivity.
 Qed.
 
+Lemma take_lowers_dirs rs : Forall (fun r => r_dir r = true) (take_lowers rs).
+Proof.
+  induction rs as [|q rs IH]; cbn [take_lowers]; [constructor|].
+  destruct (r_wh q); [constructor|]. destruct (r_dir q) eqn:E; cbn [negb]; [|constructor].
+  destruct (r_opq q); constructor; auto.
+Qed.
 (* a freshly scanned child is coherent *)
 Lemma new_from_reals_ok2 nl p l :
   l <> [] -> Forall (rexact p) l -> map r_layer l = lstack Sh nl p -> NodeOK Sh nl p (new_from_reals l).
@@ -338,6 +346,7 @@ Proof.
     + reflexivity.
     + constructor.
     + discriminate.
+    + constructor.
   - constructor; cbn [n_reals n_wh n_loaded n_ch first_wh].
     + constructor; [apply Hr|]. eapply Forall_impl; [|exact T1]. intros a [Ha _]; exact Ha.
     + discriminate.
@@ -348,6 +357,7 @@ Proof.
     + reflexivity.
     + constructor.
     + discriminate.
+    + cbn [tl]. apply take_lowers_dirs.
 Qed.
 End Scan2.
 
@@ -458,6 +468,7 @@ Proof.
   - rewrite Hk. apply N.
   - rewrite Hl, Hw, Hr. intros H. destruct (ok_ld _ _ _ _ N H) as (A & B & C). split; [exact A|]. split; [exact B|].
     intros k. rewrite Hnone. apply C.
+  - rewrite Hr. apply N.
 Qed.
 Lemma afind_amap_other {A} k c (f : A -> A) l : String.eqb c k = false -> afind k (amap c f l) = afind k l.
 Proof.
@@ -543,6 +554,8 @@ Proof.
       + unfold lstack. cbn [lstk]. cbn [map r_layer root_real]. rewrite B. reflexivity.
       + apply exact_opq_ok. exact Hex.
       + constructor.
-      + discriminate. }
+      + discriminate.
+      + cbn [tl]. clear - Hls. generalize 1%nat. induction ls as [|t l IH]; intros j; cbn [lower_reals]; [constructor|].
+        inversion Hls as [|? ? [_ Hd] Hl']; subst. constructor; [exact Hd|apply IH; exact Hl']. }
   exact (load_dir_coherent [] s0 H0).
 Qed.
